@@ -38,7 +38,14 @@ type pooled struct {
 	kinds map[string]ref.Kind
 }
 
-func snapOf(p *pooled) string {
+// snapOf reads every observer of an object. An observer that panics is part of what is observed (it becomes the
+// snapshot), never a crash of the harness.
+func snapOf(p *pooled) (snap string) {
+	defer func() {
+		if r := recover(); r != nil {
+			snap = fmt.Sprint("observer panicked: ", r)
+		}
+	}()
 	switch p.kind {
 	case "item":
 		s := real.SnapItem(p.item)
@@ -213,7 +220,13 @@ func (h *history) step(i int) {
 		op = "factory/scalar"
 		k := ref.Kind(1 + r.Intn(int(ref.NKinds)-1))
 		h.g.P.Vars = r.Bool()
+		h.g.P.MaxElems = 4
+		if r.Chance(1, 8) {
+			h.g.P.MaxElems = 40 + r.Intn(400) // now and then a long array or string (copy-avoidance with a size threshold)
+			h.c.Class("long-scalar-item")
+		}
 		m := h.g.Scalar(k)
+		h.g.P.MaxElems = 4
 		kinds := map[string]ref.Kind{}
 		modelKinds(m, kinds)
 		if k == ref.A {
@@ -300,19 +313,39 @@ func (h *history) step(i int) {
 			}
 		}
 		m["unknown"] = 5
-		o := real.Try(func() {
-			n := p.item.FillVariables(m)
-			h.add(&pooled{kind: "item", item: n, kinds: remainingKinds(p.kinds, n.Variables())}, op)
-		})
-		if !o.Panicked {
-			h.c.Class("fill-accepted")
+		m2 := map[string]interface{}{}
+		for k, v := range m {
+			m2[k] = v
 		}
+		var n1 ast.ItemNode
+		o := real.Try(func() { n1 = p.item.FillVariables(m) })
 		for k := range m {
 			delete(m, k)
 		}
 		m["scribbled"] = 1
 		for _, v := range vars {
 			m[v] = 77
+		}
+		if !o.Panicked {
+			var n2 ast.ItemNode
+			o2 := real.Try(func() { n2 = p.item.FillVariables(m2) })
+			var s1, s2 string
+			o1 := real.Try(func() { s1 = snapOf(&pooled{kind: "item", item: n1}) })
+			if !o2.Panicked {
+				s2 = snapOf(&pooled{kind: "item", item: n2})
+			}
+			if o2.Panicked || o1.Panicked || s1 != s2 {
+				h.bad = true
+				cs := h.cs
+				cs.FailedStep = i
+				cs.Trace = append([]string(nil), h.trace...)
+				h.c.Violation("C11/result-follows-the-fill-map-after-the-call/item", fmt.Sprintf("FillVariables(m), then m overwritten, then the result read for the first time: %s %s; the same fill from an untouched copy: %s %s", clipS(s1), o1, clipS(s2), o2), cs)
+				return
+			}
+			real.Try(func() {
+				h.add(&pooled{kind: "item", item: n1, kinds: remainingKinds(p.kinds, n1.Variables())}, op)
+			})
+			h.c.Class("fill-accepted")
 		}
 		if !o.Panicked {
 			note("fill-map")
@@ -379,17 +412,44 @@ func (h *history) step(i int) {
 				m[v] = h.fillValue(k, known)
 			}
 		}
-		o := real.Try(func() {
-			n := p.data.FillVariables(m)
-			h.add(&pooled{kind: "data", data: n, kinds: remainingKinds(p.kinds, n.Variables())}, op)
-		})
-		if !o.Panicked {
-			h.c.Class("fill-accepted")
+		// the result is not looked at before the caller's map has been overwritten, and is then compared with the result
+		// of the same fill from an untouched copy of the map (a result that is computed late must not read the map late)
+		m2 := map[string]interface{}{}
+		for k, v := range m {
+			m2[k] = v
 		}
+		var n1 *ast.DataMessage
+		o := real.Try(func() { n1 = p.data.FillVariables(m) })
 		for k := range m {
 			m[k] = "scribbled"
 		}
 		m["x"] = 1
+		if len(m2) > 0 && r.Bool() {
+			for k := range m {
+				delete(m, k)
+			}
+		}
+		if !o.Panicked {
+			var n2 *ast.DataMessage
+			o2 := real.Try(func() { n2 = p.data.FillVariables(m2) })
+			var s1, s2 string
+			o1 := real.Try(func() { s1 = snapOf(&pooled{kind: "data", data: n1}) })
+			if !o2.Panicked {
+				s2 = snapOf(&pooled{kind: "data", data: n2})
+			}
+			if o2.Panicked || o1.Panicked || s1 != s2 {
+				h.bad = true
+				cs := h.cs
+				cs.FailedStep = i
+				cs.Trace = append([]string(nil), h.trace...)
+				h.c.Violation("C11/result-follows-the-fill-map-after-the-call/message", fmt.Sprintf("FillVariables(m), then m overwritten, then the result read for the first time: %s %s; the same fill from an untouched copy: %s %s", clipS(s1), o1, clipS(s2), o2), cs)
+				return
+			}
+			real.Try(func() {
+				h.add(&pooled{kind: "data", data: n1, kinds: remainingKinds(p.kinds, n1.Variables())}, op)
+			})
+			h.c.Class("fill-accepted")
+		}
 		if !o.Panicked {
 			note("fill-map")
 		}
@@ -492,7 +552,16 @@ func (h *history) step(i int) {
 	case 12, 13: // decode a pooled message's bytes from a buffer that is then overwritten
 		op = "decode/hsms"
 		var b []byte
-		if p := h.pickKind("data"); p != nil && r.Bool() {
+		if r.Chance(1, 3) {
+			// a frame straight from the reference encoder, now and then with long strings and arrays
+			me := 4
+			if r.Bool() {
+				me = 40 + r.Intn(400)
+			}
+			gg := gen.New(r, gen.Profile{MaxDepth: 2, MaxElems: me, MaxKids: 3, Budget: 4000})
+			b = ref.EncodeMessage(gg.Msg(gg.Tree(), true))
+			h.c.Class("decode/fresh-frame")
+		} else if p := h.pickKind("data"); p != nil && r.Bool() {
 			b = p.data.ToBytes()
 		} else if p := h.pickKind("control"); p != nil {
 			b = p.ctl.ToBytes()
